@@ -160,7 +160,18 @@ def jit_programs(rng, tier, rx0):
                     t = (rx0 + rng.choice((0x40, 0x1000, 0x100000, -0x1000, 0x7FFF0000, -0x7FFF0000, 0x80000000, -0x80001000))) & c03.M64
                     ops[j] = "%s %s %s %x" % (w[0], w[1], w[2], t)
         progs.append(ops + JIT_TAIL)
+    # allocator variants: default (rx == rw), dual mapping (rx != rw: the code must be relocated to the executable view and
+    # stored through the writable one), multiple pools, immediate release, no initial padding - and combinations
+    masks = (0, 1, 1, 3, 9, 0x1B, 2, 1, 0x11, 8)
+    for i, p in enumerate(progs):
+        m = masks[i % len(masks)]
+        if m:
+            p[-4] = "jitadd %x" % m
     return progs
+
+
+def jit_idx(p):
+    return next(i for i, l in enumerate(p) if l.startswith("jitadd"))
 
 
 def jit_pair(h, progs):
@@ -174,10 +185,12 @@ def jit_pair(h, progs):
     for p, a in zip(progs, ia):
         q = list(p)
         for j, (op, ans) in enumerate(zip(p, a)):
-            if op == "jitadd":
+            if op.startswith("jitadd"):
                 w = ans.split()
                 rx = w[3] if w[0] == "Ok" and len(w) >= 4 else next((x[6:] for x in w if x.startswith("probe=")), "0")
-                q[j] = "jitadd %s" % (rx if int(rx, 16) else "1000")
+                rx = rx if int(rx, 16) else "1000"
+                rw = next((x[3:] for x in w if x.startswith("rw=")), rx)
+                q[j] = "jitadd %s %s" % (rx, rw)
                 a[j] = " ".join(x for x in w if not x.startswith("probe="))
         mprogs.append(q)
     model, rc2, err2 = vlib.run_model("C03", [l for p in mprogs for l in p], timeout=14400)
@@ -187,19 +200,29 @@ def jit_pair(h, progs):
     return ia, ma, None
 
 
-def jit_verdict(p, a, verdict):
-    """what is wrong with the real run of a JitRuntime::add program (None: nothing)"""
-    j = p.index("jitadd")
+def jit_verdicts(p, a, verdict):
+    """everything that is wrong with the real run of a JitRuntime::add program: [(class, description)]"""
+    out = []
+    j = jit_idx(p)
     wa, wr = a[j].split(), a[p.index("jitrelease")].split()
+    base = next((x[5:] for x in wa if x.startswith("base=")), None)
+    if wa[0] == "Ok" and base is not None and len(wa) >= 4 and int(base, 16) != int(wa[3], 16):
+        out.append(("base", "after JitRuntime::add the CodeHolder's base address is %s, but the code runs at the returned pointer %s "
+                            "(relocated to the wrong view of a dual-mapped span?)" % (base, wa[3])))
     if verdict != "good":
-        return "the bytes at the pointer JitRuntime::add returned do not address their targets: monitor says %s" % verdict
+        out.append(("image", "the bytes at the pointer JitRuntime::add returned do not address their targets: monitor says %s" % verdict))
     if wa[0] == "Ok" and (len(wa) < 6 or int(wa[4]) == 0 or (wa[5] != "-" and len(wa[5]) != 2 * int(wa[4]))):
-        return "JitRuntime::add returned kOk with an empty / short image: %s" % a[j][:120]
+        out.append(("size", "JitRuntime::add returned kOk with an empty / short image: %s" % a[j][:120]))
     if wa[0] == "Ok" and (wr[0] != "Ok" or wr[-1] != "live=0"):
-        return "JitRuntime::release after a successful add: %s" % a[p.index("jitrelease")]
+        out.append(("release", "JitRuntime::release after a successful add: %s" % a[p.index("jitrelease")]))
     if wa[0] != "Ok" and wr[-1] != "live=0":
-        return "a failed JitRuntime::add left memory allocated: %s" % a[p.index("jitrelease")]
-    return None
+        out.append(("leak", "a failed JitRuntime::add left memory allocated: %s" % a[p.index("jitrelease")]))
+    return out
+
+
+def jit_verdict(p, a, verdict):
+    v = jit_verdicts(p, a, verdict)
+    return v[0][1] if v else None
 
 
 def check_jit(res, h, rng):
@@ -226,26 +249,30 @@ def check_jit(res, h, rng):
     if verdicts is None:
         res.violation("monitor protocol failure (JitRuntime::add programs)", {}, False, key="jit-protocol")
         return
-    outcomes = {}
+    outcomes, views, first = {}, {}, {}
     badset = set()
     for i, (p, a) in enumerate(zip(progs, ia)):
-        j = p.index("jitadd")
-        wa, wr = a[j].split(), a[p.index("jitrelease")].split()
+        j = jit_idx(p)
+        wa = a[j].split()
         outcomes[wa[0]] = outcomes.get(wa[0], 0) + 1
-        why = jit_verdict(p, a, verdicts[i])
-        if why and not badset:
-            res.violation("%s (%d-op program)" % (why, len(p)), {"ops": p, "impl": a, "how": "python3 tools/check.py replay <this file>"}, True, key="jit")
-        if why:
+        if wa[0] == "Ok":
+            rw = next((x[3:] for x in wa if x.startswith("rw=")), wa[3])
+            views["rx!=rw" if int(rw, 16) != int(wa[3], 16) else "rx==rw"] = views.get("rx!=rw" if int(rw, 16) != int(wa[3], 16) else "rx==rw", 0) + 1
+        for cls, why in jit_verdicts(p, a, verdicts[i]):
             badset.add(i)
+            if cls not in first or len(p) < len(first[cls][0]):
+                first[cls] = (p, a, why)
+    for cls, (p, a, why) in sorted(first.items()):
+        res.violation("%s (%d-op program)" % (why, len(p)), {"ops": p, "impl": a, "how": "python3 tools/check.py replay <this file>"}, True, key="jit:" + cls)
     diffs = [i for i in range(len(progs)) if ia[i] != ma[i] and i not in badset]
     if diffs:
         i = min(diffs, key=lambda j: len(progs[j]))
         p = progs[i]
 
         def differs(b):
-            a, m, f = jit_pair(h, [p[:1] + b + JIT_TAIL])
+            a, m, f = jit_pair(h, [p[:1] + b + p[-4:]])
             return a is not None and m is not None and a != m
-        sp = p[:1] + vlib.ddmin(p[1:-4], differs, max_tests=150) + JIT_TAIL if differs(p[1:-4]) else p
+        sp = p[:1] + vlib.ddmin(p[1:-4], differs, max_tests=150) + p[-4:] if differs(p[1:-4]) else p
         a, m, _ = jit_pair(h, [sp])
         a, m = (a or [[]])[0], (m or [[]])[0]
         k = vlib.first_diff(a, m)
@@ -255,12 +282,15 @@ def check_jit(res, h, rng):
                       {"ops": sp, "impl": a, "model": m, "unchecked": "correspondence Model/JitAdd.lean ~ JitRuntime::_add"}, False, key="corr-jit")
     res.coverage["jit_add_programs"] = len(progs)
     res.coverage["jit_add_outcomes"] = outcomes
+    res.coverage["jit_add_views"] = views
+    if progs and not views.get("rx!=rw"):
+        res.notes.append("no dual-mapped span was obtained (kUseDualMapping unavailable here?): the rx/rw distinction was not exercised")
 
 
 def run(res):
     rng = vlib.rng_for(res.seed, PID)
     res.assumptions += c03.ASSUMPTIONS + [
-        "JitRuntime::add is exercised for real (fresh runtime per program, fill pattern 0xCC): the bytes at the returned pointer are judged by the "
+        "JitRuntime::add is exercised for real (fresh runtime per program, fill pattern 0xCC; allocator variants: default, kUseDualMapping - rx != rw, the image is read through rx and CodeHolder::base_address() must be rx -, kUseMultiplePools, kImmediateRelease, kDisableInitialPadding): the bytes at the returned pointer are judged by the "
         "monitor and compared with the model's image for that address (Model/JitAdd.lean); the allocator itself is C10's subject, the span "
         "address is taken from the real run; executing the code is not part of the check",
         "model follows the repaired relocate_to_base tail: fixes/C04-1.patch (address table buffer size set even when the table is not last)"]
@@ -274,7 +304,7 @@ def run(res):
 
 def replay(data):
     ops = data["replay"].get("ops", [])
-    if "jitadd" not in ops or "jitrelease" not in ops:
+    if not any(l.startswith("jitadd") for l in ops) or "jitrelease" not in ops:
         return c03.replay(data)
     h = vlib.build_harness("c03")
     impl, rc, err = vlib.run_lines([str(h)], ops)
